@@ -190,7 +190,7 @@ class Ctx:
         """case: dict with 'predicates' (set of names true of the failing case) and 'signature'."""
         for f in self.findings:
             m = f.get("match", {})
-            if m.get("predicate") in case.get("predicates", ()) and m.get("signature") == case.get("signature"):
+            if m.get("predicate") in case.get("predicates", ()) and (m.get("signature") == "*" or m.get("signature") == case.get("signature")):
                 return f
         return None
 
